@@ -104,6 +104,10 @@ def moveToFront {α : Type} (l : List (ListElem α)) (id : Nat) : List (ListElem
   | none => l
   | some x => x :: l.filter (fun y => !(y.id == id))
 
+/-- `l.PushBack(v)`: a new element at the back; its identity is new within the list -/
+def pushBack {α : Type} (l : List (ListElem α)) (v : α) : List (ListElem α) :=
+  l ++ [{ id := (l.map (·.id)).foldl max 0 + 1, Value := v }]
+
 /-- a store through `e.Value.(*T)`: the object the element points to changes, wherever the element is -/
 def setValue {α : Type} (l : List (ListElem α)) (id : Nat) (v : α) : List (ListElem α) :=
   l.map (fun x => if x.id == id then { x with Value := v } else x)
